@@ -96,6 +96,9 @@ type Key struct {
 	DidKey string
 	// Born is the epoch from which the party's DID document lists this key (the key itself is in the KMS from the start)
 	Born int
+	// Gone: the key was rotated in its KMS: its private part is still inside the rotated keyset, but the KMS no longer
+	// finds it under this key's id
+	Gone bool
 	w    *World
 }
 
@@ -285,6 +288,44 @@ func (w *World) NewKey(owner int, kt string) *Key {
 	w.Keys = append(w.Keys, k)
 
 	return k
+}
+
+// Rotate rotates the key in its owner's KMS (kms.Rotate): the keyset gets a new primary key and is stored under the
+// new key's id.  Returns the new key; the old one is marked Gone.
+func (w *World) Rotate(k *Key) (*Key, error) {
+	p := w.Parties[k.Owner]
+
+	nkid, _, err := p.KMS.Rotate(kmsType(k.KT), k.KMSKID)
+	if err != nil {
+		return nil, err
+	}
+
+	b, _, err := p.KMS.ExportPubKeyBytes(nkid)
+	if err != nil {
+		return nil, err
+	}
+
+	nk := &Key{Name: len(w.Keys) + 1, Owner: k.Owner, KT: k.KT, KMSKID: nkid, Bytes: b, Born: 0, w: w}
+
+	nk.DidKey, err = kmsdidkey.BuildDIDKeyByKeyType(b, kmsType(k.KT))
+	if err != nil {
+		return nil, err
+	}
+
+	if k.KT != Ed25519 {
+		nk.Pub = &cryptoapi.PublicKey{}
+		if e := json.Unmarshal(b, nk.Pub); e != nil {
+			return nil, e
+		}
+	} else {
+		w.byRef[base58.Encode(b)] = nk
+	}
+
+	w.byRef[nk.DidKey] = nk
+	w.Keys = append(w.Keys, nk)
+	k.Gone = true
+
+	return nk, nil
 }
 
 // Ref is the key reference of the style.
